@@ -916,6 +916,16 @@ def str_trim(ex, args, callee):
     return Str((Atom('trimmed#%d' % fresh_id(), n),), 'str')
 
 
+@stub('cmp::min', 'cmp::max', '<usize as Ord>::min', '<usize as Ord>::max', '<u64 as Ord>::min', '<u64 as Ord>::max')
+def cmp_min_max(ex, args, callee):
+    a, b = args[0], args[1]
+    if not (isinstance(a, Int) and isinstance(b, Int)):
+        raise Unsupported('min/max of %r, %r' % (a, b))
+    lt = (a.t < b.t) if a.signed else z3.ULT(a.t, b.t)
+    is_min = callee.rstrip().endswith('min') or '::min::' in callee or '::min<' in callee.replace(' ', '')
+    return Int(z3.If(lt, a.t, b.t) if is_min else z3.If(lt, b.t, a.t), a.ty)
+
+
 @stub('mem::drop')
 def mem_drop(ex, args, callee):
     ex.drop_value(args[0])
